@@ -7,6 +7,7 @@ import (
 	"fmt"
 	"math/rand"
 	"os"
+	"strings"
 	"sync"
 )
 
@@ -44,7 +45,11 @@ type Case struct {
 	Rng   *rand.Rand
 	R     *Result
 	mu    sync.Mutex
+	// starved: the engine reported itself unavailable (see Violate); later mismatches of the case are not judged
+	starved bool
 }
+
+const engineStarved = "start timestamp may fall behind safe point"
 
 // NewCase builds the case context; all randomness derives from (seed, property, index).
 func NewCase(prop, tier string, seed int64, index int) *Case {
@@ -61,6 +66,23 @@ func NewCase(prop, tier string, seed int64, index int) *Case {
 func (c *Case) Violate(sig, detail string, witness interface{}) {
 	c.mu.Lock()
 	defer c.mu.Unlock()
+	if strings.Contains(detail, engineStarved) {
+		// The TiKV client refuses every transaction when its cached GC safe point is older than 99 s; its refresher
+		// runs every 10 s, so this only happens when the worker process was starved or frozen for that long (seen once
+		// in a thorough sweep run next to ten other jobs). It is the engine reporting itself unavailable, which no
+		// property forbids: whatever followed says nothing about kubebrain.
+		if c.R.Verdict != "violated" {
+			c.R.Verdict = "inconclusive"
+		}
+		if c.R.Inconclusive == "" {
+			c.R.Inconclusive = "engine unavailable: TiKV mock safe-point cache went stale (process starved >99 s)"
+		}
+		c.starved = true
+		return
+	}
+	if c.starved {
+		return // consequences of the engine outage above
+	}
 	same := 0
 	for _, v := range c.R.Violations {
 		if v.Sig == sig {
